@@ -114,9 +114,12 @@ CHECKS["C18"] = dict(level="model_checking", ref="DESIGN.md §4 C18, §9",
          "termination of the owner, start/stop notices) used as oracle: systematic histories for buffers 0-3 x notify on/off and hundreds of seeded random ones "
          "(2 producers, 3 consumers, 2 events; register, publish with and without the token, link/monitor subscribe, unsubscribe, unregister, kill of a producer) are "
          "executed on a real node and TLC replays every recorded line, comparing results, the buffer returned to a new subscriber, the payload sequence at every "
-         "subscriber, notifications and notices.",
-    note="Trusted: TLC; operations are sequential (quiescence after each): the publish-versus-subscribe race (atomic-step draft in DESIGN Appendix I; yield points "
-         "event.* / sub.* exist in the code) and remote subscribers are not bound yet.",
+         "subscriber, notifications and notices. Subscribers on another node: a producer on one real node publishes numbered messages before and after 1-4 processes "
+         "of a second node (behind the segmenting relay) subscribe by link / monitor; spec/Net.tla judges the buffer handed over (the last N, in order), every later "
+         "publication exactly once and in order with an equal payload, and one exit / down notice when the event is unregistered or its producer is killed.",
+    note="Trusted: TLC; operations are sequential (quiescence after each): the publish-versus-subscribe window is not placed (the only anomaly the code admits there "
+         "is a message that is both in the returned buffer and delivered, DESIGN Appendix I). Open known finding P28 (the end-of-event frame can overtake the last "
+         "publications on their way to a remote subscriber).",
     tech="TLA+ reference Events evaluated by TLC as oracle over recorded histories of a real node (trace validation)")
 
 CHECKS["C12"] = dict(level="model_checking", ref="DESIGN.md §4 C12, §9",
